@@ -57,7 +57,8 @@ def codec(
     marshal = marshaller or marshals.marshaller(t=t)
     unmarshal = unmarshaller or unmarshals.unmarshaller(t=t)
     cls = codec_cls or Codec
-    if inspection.isbytestype(t):
+    # A qualifier or alias in front of a bytes-like type doesn't change the wire format.
+    if inspection.isbytestype(inspection.unwrap(t)):
         cdc = cls(
             marshal=marshal,
             unmarshal=unmarshal,
